@@ -547,7 +547,10 @@ def prefix_stream(chk, n):
         unders = rng.sample(["foo/bar.c", "lib/util.h", "gone/missing.c", "main.c"], rng.randrange(1, 4))
         recs, intent = [], []
         for u in unders:
-            for k in rng.sample([rec_prefix + "/" + u, rec_prefix + "//" + u, rec_prefix + "/./" + u], rng.randrange(1, 3)):
+            # the prefix part itself may be written with '//' or '/./' between its components: it is removed component-wise
+            spelt = [rec_prefix + "/" + u, rec_prefix + "//" + u, rec_prefix + "/./" + u,
+                     c12.inside_prefix(rng, rec_prefix) + "/" + u, c12.inside_prefix(rng, rec_prefix) + "//" + u]
+            for k in rng.sample(spelt, rng.randrange(1, 4)):
                 i = len(recs)
                 recs.append((k, {"lines": [[rng.choice([1, 2, 3]), rng.choice([0, 2])], [1000 + i, 1]], "branches": [], "funcs": []}))
                 intent.append(u)
@@ -570,6 +573,65 @@ def prefix_stream(chk, n):
         dist["cases"] += 1
         dist["prefix_" + kind] += 1
         dist["with_source_dir"] += bool(sd)
+        dist["records_with_respelt_prefix_part"] += sum(1 for k, _ in recs if not k.startswith(rec_prefix + "/"))
+        shutil.rmtree(root, ignore_errors=True)
+    return dict(dist)
+
+
+# ---------------------------------------------------------------------------------------------
+# CLI stream, --path-mapping: a record is looked up with its first letter in lower case, then in upper case, so a key
+# and a record that differ only in the case of the first letter (either way) denote the mapped file
+# ---------------------------------------------------------------------------------------------
+def mapping_stream(chk, n):
+    import os, shutil, c12
+    exe = vlib.build_cli()
+    sc = os.path.realpath(vlib.scratch("clim_" + chk.pid))
+    rng = chk.rng
+    dist = collections.Counter()
+    for ci in range(n):
+        root = os.path.join(sc, "m%d" % ci)
+        run_dir = os.path.join(root, "run")
+        os.makedirs(run_dir, exist_ok=True)
+        for u in ("foo/bar.c", "lib/util.h"):
+            os.makedirs(os.path.dirname(os.path.join(root, "src", u)), exist_ok=True)
+            if rng.random() < 0.6:
+                open(os.path.join(root, "src", u), "w").write("x\n")
+        sd = os.path.join(root, "src") if rng.random() < 0.5 else None
+        mapping, recs, intent = {}, [], []
+        for u in rng.sample(["foo/bar.c", "lib/util.h", "gone/missing.c", "main.c"], rng.randrange(1, 4)):
+            keys = rng.sample(["C:/obj/dist/include/" + u.replace("/", "_"), "gen/obj/" + u.replace("/", "_"), "Build/" + u, "z:/w/" + u], rng.randrange(1, 3))
+            spelt = [u] if rng.random() < 0.7 else []
+            for key in keys:
+                mapping[key] = rng.choice([u, u, "./" + u])
+                spelt.append(rng.choice([c12.flip_first(key), c12.flip_first(key), key]))
+            if rng.random() < 0.3:
+                spelt.append("Unmapped/" + u)
+            for k in spelt:
+                i = len(recs)
+                recs.append((k, {"lines": [[rng.choice([1, 2, 3]), rng.choice([0, 2])], [1000 + i, 1]], "branches": [], "funcs": []}))
+                intent.append(k if k.startswith("Unmapped/") else u)
+        mfile = os.path.join(run_dir, "map.json")
+        json.dump(mapping, open(mfile, "w"))
+        info = os.path.join(run_dir, "in.info")
+        open(info, "w").write(c12.render_lcov(recs))
+        args = [exe, info, "--path-mapping", mfile] + (["-s", sd] if sd else []) + ["-t", "lcov"]
+        p = vlib.sh(args, cwd=run_dir, timeout=120)
+        chk.count()
+        replay = {"kind": "oracle", "engine": "cli-mapping", "args": args[1:], "path_mapping": mapping, "input": c12.render_lcov(recs), "lcov": p.stdout[-3000:]}
+        if p.returncode != 0:
+            chk.violation(dict(replay, stderr=p.stderr[-600:], clause="grcov must produce a report"), tag="cli-mapping")
+            continue
+        want = expected_report(recs, intent, lambda p_: True)
+        got = lcov_report(p.stdout)
+        if got != want:
+            chk.violation(dict(replay, reported=sorted(got.elements()), expected=sorted(want.elements()),
+                               clause="a record whose path is a --path-mapping key (up to the case of its first letter) is reported under the mapped path, data unchanged"), tag="cli-mapping")
+        else:
+            chk.nontrivial(("cli-mapping", sorted(mapping.items()), [k for k, _ in recs], bool(sd)))
+        dist["cases"] += 1
+        dist["key_upper_record_lower"] += sum(1 for k, _ in recs if k[0].islower() and c12.flip_first(k) in mapping)
+        dist["key_lower_record_upper"] += sum(1 for k, _ in recs if k[0].isupper() and c12.flip_first(k) in mapping)
+        dist["exact"] += sum(1 for k, _ in recs if k in mapping)
         shutil.rmtree(root, ignore_errors=True)
     return dict(dist)
 
@@ -619,7 +681,8 @@ def run(chk):
     known = {e["key"]: e for e in vlib.known_findings(chk.pid)}
     d4 = java_stream(chk, 40 if quick else 400, known)
     d5 = prefix_stream(chk, 40 if quick else 400)
-    chk.extra["distribution"] = {"pathfacts": d1, "rewrite": d2, "cli": d3, "cli_java": d4, "cli_prefix": d5}
+    d6 = mapping_stream(chk, 30 if quick else 300)
+    chk.extra["distribution"] = {"pathfacts": d1, "rewrite": d2, "cli": d3, "cli_java": d4, "cli_prefix": d5, "cli_mapping": d6}
     chk.cov["rule"] = ("(1) std::path facts: generated pairs of path strings (tokens '/', '//', '.', '..', names, UTF-8, backslash; second operand a "
                        "re-spelt prefix/suffix of the first half of the time): components, join, starts_with, ends_with, strip_prefix, parent, ancestors, "
                        "normalize_path, has_no_parent through std::path/grcov vs Model/Paths.v vs the driver's reading of Appendix D (components, escape "
@@ -634,7 +697,8 @@ def run(chk):
                        "directory), package-relative and full records, -s, and the reports of no glob / --ignore src/<d>/* / --keep-only src/<d>/*: unfiltered mapping, "
                        "then the glob partition (the --ignore half inside the known class ignore-prunes-partial-path-index must be exactly the recorded wrong output). "
                        "(5) CLI, -p prefixes that exist locally as a symlink, a relative path, with '..' or './' segments, or not at all: removed as the literal "
-                       "leading components of the recorded paths. "
+                       "leading components of the recorded paths, also when the records write the prefix part itself with '//' or '/./'. "
+                       "(6) CLI, --path-mapping: keys and records that differ only in the case of the first letter (both directions) next to plain spellings: reported under the mapped path. "
                        "non-trivial = a rewrite case with at least one reported record that passed every oracle, or a facts pair on which model and std agree; distinct by content")
     chk.cov["trusted_base"] = ["Coq kernel; vm_compute for the correspondence",
                                "globset crate (its verdict on every candidate path enters the model as data; the theorems quantify over all verdict functions)",
